@@ -79,6 +79,21 @@ class CallGraph:
                     and isinstance(n.value, ast.Call) and norm(n.value.func) == "getattr" and len(n.value.args) >= 2 \
                     and isinstance(n.value.args[1], ast.Constant) and isinstance(n.value.args[1].value, str):
                 getattr_alias[n.targets[0].id] = n.value.args[1].value
+        # names that range over a literal tuple/list of strings: `for hook in ("a", "b"): getattr(x, hook)()`
+        str_sets: Dict[str, List[str]] = {}
+        for n in walk_no_nested(f.node):
+            it = tg = None
+            if isinstance(n, (ast.For, ast.comprehension)):
+                it, tg = n.iter, n.target
+            if isinstance(tg, ast.Name) and isinstance(it, (ast.Tuple, ast.List, ast.Set)) \
+                    and it.elts and all(isinstance(x, ast.Constant) and isinstance(x.value, str) for x in it.elts):
+                str_sets[tg.id] = [x.value for x in it.elts]
+        for n in walk_no_nested(f.node):
+            if isinstance(n, ast.Call) and norm(n.func) == "getattr" and len(n.args) >= 2 and isinstance(n.args[1], ast.Name) \
+                    and n.args[1].id in str_sets:
+                for nm in str_sets[n.args[1].id]:
+                    add(self.by_getter.get(nm, []))
+                    add(self.by_method.get(nm, []))
         for n in walk_no_nested(f.node):
             if isinstance(n, ast.Call):
                 fx = n.func
